@@ -35,11 +35,13 @@ def meta(tier, seed):
                   "or attribute written by one task is read or written by another; ob4 real joblib output == model output",
         "bounds": {"ob1": "n in 1..64, n_jobs in {1..n+1,-1,-2,10^6}, cpu_count in {1,2,16}",
                    "ob2": "batches of 1..%d rows, all compositions, isolated + shared semantics, all completion orders "
-                          "(<= 4 chunks; identity and reverse above)" % (4 if tier == "quick" else 6),
+                          "(<= 4 chunks; identity and reverse above)" % (4 if tier == "quick" else 5),
                    "ob3": "preemption bound %d at LOAD_ATTR/STORE_ATTR/BINARY_SUBSCR/STORE_SUBSCR/DELETE_SUBSCR/CALL/"
-                          "BINARY_OP granularity; 2-3 tasks" % (1 if tier == "quick" else 2),
+                          "BINARY_OP granularity; 2-3 tasks%s" % (1 if tier == "quick" else 2, "" if tier == "quick" else
+                                                              " (bound 1 for ts/tree and eg5/tree predictions)"),
                    "ob4": "real joblib backends None/loky/threading/multiprocessing",
-                   "ob5": "2600-row histories (fit 900 + partial_fit 1700) under n_jobs 1..4"},
+                   "ob5": "2600-row histories (fit 900 + partial_fit 1700) under n_jobs 1..4",
+                   "ob6": "rewards +-1e308 / contexts 1e200 whose per-arm totals overflow, n_jobs 1..3"},
         "assumptions": ["calls into NumPy / scikit-learn / copy are atomic steps (frames outside mabwiser are not traced)",
                         "prediction tasks: only frames whose receiver belongs to the shared bandit graph are preemptible",
                         "the memory model below the GIL is not modelled"],
@@ -55,7 +57,7 @@ PRED_TARGETS = [("eg5", "rad"), ("ts", "rad"), ("lucb", "rad"), ("lts1", "rad"),
 
 def shards(tier, seed):
     out = [{"ob": 1, "seed": seed}]
-    nmax = 4 if tier == "quick" else 6
+    nmax = 4 if tier == "quick" else 5
     for ln, nn in A.combos(lints1=True):
         if nn == "none":
             continue
@@ -93,9 +95,13 @@ def shards(tier, seed):
         out.append({"ob": 3, "target": "lshfit", "ln": "eg0", "nn": "lsh", "call": "fit", "bound": bound,
                     "part": [part, parts], "seed": 53 + seed})
     for ln, nn in PRED_TARGETS:
-        for part in range(parts * 2 if tier == "thorough" else 1):
+        # randomised policies under TreeBandit (the subjects of known finding F-C05-a) stay at one preemption: their
+        # two-preemption space alone is as large as that of all other targets together
+        b = 1 if (nn == "tree" and ln != "ucb") else bound
+        np_ = parts * 2 if (tier == "thorough" and b > 1) else 1
+        for part in range(np_):
             out.append({"ob": 3, "target": "predict", "ln": ln, "nn": nn, "call": "predict_expectations",
-                        "bound": bound, "part": [part, parts * 2 if tier == "thorough" else 1], "seed": 53 + seed})
+                        "bound": b, "part": [part, np_], "seed": 53 + seed})
     for ln in FIT_LPS:
         out.append({"ob": "3r", "ln": ln, "nn": "none", "seed": 55 + seed})
     for ln in ("eg0", "ts"):
@@ -106,6 +112,8 @@ def shards(tier, seed):
                    ("ucb", ["Clusters", {"n_clusters": 3, "is_minibatch": False}]), ("eg0", "lsh"), ("ucb", "knn"),
                    ("lucb", "none"), ("ucb", "none")):
         out.append({"ob": 5, "ln": ln, "nn": nn, "seed": 59 + seed})
+    for ln in ("eg0", "ucb", "sm", "lg", "lucb", "lts1"):
+        out.append({"ob": 6, "ln": ln, "seed": 59 + seed})
     for backend in ([None, "threading"] if tier == "quick" else [None, "loky", "threading", "multiprocessing"]):
         out.append({"ob": 4, "backend": backend, "in_parent": True, "seed": 57 + seed, "tier": tier})
     out.sort(key=lambda s: 0 if s["ob"] == 3 and s["target"] == "predict" else 1 if s["ob"] == 2 else 2)
@@ -328,8 +336,8 @@ def ob3(shard, acc):
     root_filter = (lambda i: i % parts == part) if parts > 1 else None
     maxpoints = 0
     for ch, got in sched.explore_choices(run, shard["bound"], root_filter=root_filter):
-        if parts > 1 and part != 0 and not any(ch.choices):
-            continue                      # the root execution belongs to part 0
+        if parts > 1 and part != 0 and ch.preemptions() == 0:
+            continue                      # executions without a preemption are run by every part and belong to part 0
         acc.traces += 1
         maxpoints = max(maxpoints, len(ch.points))
         nontrivial = ch.preemptions() > 0 or any(ch.choices)
@@ -599,6 +607,48 @@ def ob5(shard, acc):
     acc.sample({"ob": 5, "combination": [ln, str(nn)], "rows": 2600, "n_jobs": [1, 2, 3, 4]})
 
 
+# ================================================================== ob6: extreme magnitudes
+def ob6_run(ln, n_jobs, seed):
+    """fit + partial_fit on finite rewards whose per-arm totals overflow: whatever the library does with them (an
+    inf model, an exception) must not depend on the number of jobs (thread-local state such as numpy's error
+    settings differs between the calling thread and pool threads)."""
+    import warnings
+    cfg = A.config(ln, "none", arms=ARMS3, seed=seed, n_jobs=n_jobs)
+    cf = ops.is_context_free(cfg)
+    big = 1e308
+    d1, r1 = [1, 2, 1, 2], [big, -big, big, -big]
+    d2, r2 = [2, 1, 3], [-big, big, 1.0]
+    x1, x2 = [[1e200, 1.0], [1.0, 1e200], [1e200, 2.0], [2.0, 1e200]], [[1.0, 0.0], [0.0, 1.0], [1.0, 1.0]]
+    out = []
+    with sched.model(), warnings.catch_warnings():
+        warnings.simplefilter("ignore")
+        mab = ops.build(cfg)
+        for op in (["fit", d1, r1, None if cf else x1], ["partial_fit", d2, r2, None if cf else x2]):
+            try:
+                ops.apply(mab, op)
+                out.append("ok")
+            except Exception as e:                            # noqa: BLE001
+                out.append(type(e).__name__)
+        q = None if cf else [[1.0, 1.0], [0.0, 2.0]]
+        out.append(ops.call(mab, "predict_expectations", q))
+    return cfg, out
+
+
+def ob6(shard, acc):
+    ln = shard["ln"]
+    _c, ref = ob6_run(ln, 1, shard["seed"])
+    acc.outcome(ref)
+    for n_jobs in (2, 3):
+        cfg, got = ob6_run(ln, n_jobs, shard["seed"])
+        acc.traces += 1
+        acc.case(("ob6", ln, n_jobs))
+        acc.state(("ob6", ln, n_jobs))
+        if not ops.same(ref, got):
+            acc.violation("ob6 %s n_jobs=%d" % (ln, n_jobs), {"ob": 6, "cfg": cfg, "ln": ln},
+                          "overflowing totals: n_jobs=%d gives %r, n_jobs=1 gives %r" % (n_jobs, got, ref))
+    acc.sample({"ob": 6, "policy": ln, "n_jobs": [1, 2, 3]})
+
+
 # ================================================================== driver
 def run_shard(shard):
     acc = report.Acc(ID, replay, shard)
@@ -613,6 +663,8 @@ def run_shard(shard):
         ob3r(shard, acc)
     elif ob == 5:
         ob5(shard, acc)
+    elif ob == 6:
+        ob6(shard, acc)
     else:
         ob4(shard, acc)
     return acc.result()
@@ -645,6 +697,10 @@ def replay(w):
     if ob == 5:
         _c, ref = ob5_run(w["ln"], w["nn"], 1, w["cfg"]["seed"])
         _c, got = ob5_run(w["ln"], w["nn"], w["cfg"]["n_jobs"], w["cfg"]["seed"])
+        return [] if ops.same(ref, got) else ["n_jobs=%d: %r != n_jobs=1: %r" % (w["cfg"]["n_jobs"], got, ref)]
+    if ob == 6:
+        _c, ref = ob6_run(w["ln"], 1, w["cfg"]["seed"])
+        _c, got = ob6_run(w["ln"], w["cfg"]["n_jobs"], w["cfg"]["seed"])
         return [] if ops.same(ref, got) else ["n_jobs=%d: %r != n_jobs=1: %r" % (w["cfg"]["n_jobs"], got, ref)]
     cfg = w["cfg"]
     _c, real = ob4_case(w["ln"], w["nn"], cfg["n_jobs"], cfg["backend"], cfg["seed"], True)
